@@ -148,6 +148,8 @@ Proof.
   - destruct Hinv as [_ [_ [_ [_ Hs]]]]. split; [apply Hs|apply sub_send_keeps; apply Hch; reflexivity].
   - apply IK_fold_in. intros w' x _. apply IK_modt; keepf_tac.
   - destruct (done _); [apply IK_refl|apply IK_deactivate; apply Hch; reflexivity].
+  - apply IK_same_tss; reflexivity.
+  - apply IK_same_tss; reflexivity.
 Qed.
 
 Lemma IK_run_acts a l w : (forall ac, In ac l -> act_ok O P a ac) -> IK a w (run_acts P sub a l w).
@@ -213,7 +215,8 @@ Proof.
   destruct (ExEn P a (actives (gett w a)) far) as [[ex en] re].
   destruct (negb (framer_checkEnter P sub a en ex w)); [exact Hi|]. cbn [fst].
   unfold guard. match goal with |- Inv (match crashed ?W with _ => _ end) => assert (HW : Inv W) end.
-  { apply IK_framer_enter. apply IK_framer_renter. apply IK_framer_rexit. apply IK_framer_exit. exact Hi. }
+  { apply IK_framer_enter. apply IK_framer_renter. apply IK_framer_rexit. apply IK_framer_exit.
+    apply IK_run_acts; [intros; eapply tracts_ok; eauto|exact Hi]. }
   destruct (crashed _); [exact HW|apply Inv_activate; exact HW].
 Qed.
 
@@ -240,6 +243,7 @@ Proof.
       assert (HW : IK a w W) end.
     { it; [|apply IK_guard; intros; split; [apply Hrc|apply sub_recur_keeps; exact Hc]].
       it; [|split; [apply He|apply sub_enterAll_keeps; exact Hc]].
+      it; [apply IK_run_acts; intros; eapply tracts_ok; eauto|].
       destruct (fm_original _); [apply IK_modt; keepf_tac|apply IK_refl]. }
     destruct HW as [HWi [HWa HWb]].
     destruct (crashed _); [split; [auto|congruence]|].
